@@ -326,6 +326,31 @@ def make(tier="thorough", seed=0):
             src += "pub type %s = <%s as SerializeInner>::SerType;\n" % (sn, rust)
             expect["aliases"][dn] = eps
             expect["aliases"][sn] = ser
+        # a serialization-only instantiation: every field-typed parameter of a deep-copy definition holds a view
+        # (&[T] -> Vec<T>), so each one must be mapped by SerType whatever the order of parameters and fields
+        fparams = [p_ for (p_, role) in d.tparams if role == "F"]
+        if d.copy != "zero" and fparams and not any("Clone" in (d.bounds.get(p_) or "") for p_ in fparams):
+            VIEWS = [("&'static [u16]", "std::vec::Vec<u16>"), ("&'static [i64]", "std::vec::Vec<i64>"), ("&'static [u8]", "std::vec::Vec<u8>")]
+            args_rust, args_ser = [], []
+            k = 0
+            for (p_, role) in d.tparams:
+                if role == "F":
+                    v = VIEWS[k % len(VIEWS)]
+                    k += 1
+                    args_rust.append(v[0])
+                    args_ser.append(v[1])
+                elif role == "M":
+                    b = d.bounds.get(p_, "")
+                    a = (ZERO_ARGS if "ZeroCopy" in b else DEEP_ARGS)[0]
+                    args_rust.append(a[0])
+                    args_ser.append(a[1])
+                else:
+                    args_rust.append("String")
+                    args_ser.append("std::string::String")
+            consts = ["3" for _ in d.cparams]
+            vn = "SV_%s" % d.name
+            src += "pub type %s = <%s<%s> as SerializeInner>::SerType;\n" % (vn, d.name, ", ".join(args_rust + consts))
+            expect["aliases"][vn] = "%s<%s>" % (d.name, ", ".join(args_ser + consts))
         src += "\n"
     return src, expect
 
